@@ -158,3 +158,55 @@ var specC02 = &lifeSpec{
 func init() { specC02.register() }
 
 func TestC02History(t *testing.T) { runRapid(t, "TestC02History", specC02.property()) }
+
+// ---- C06 ----
+
+var specC06 = &lifeSpec{
+	Prop: "C06", Test: "TestC06",
+	Oracles: func() []Oracle { return []Oracle{&C06Oracle{}} },
+	Nontrivial: func(s *Sim, os []Oracle) bool {
+		o := os[0].(*C06Oracle)
+		interesting := s.Labels["debt-created"] + s.Labels["debt-repaid"] + s.Labels["renew+"] + s.Labels["migrate+"] + s.Labels["claim+"]
+		return o.MaxEscrowsNonZero >= 2 && interesting > 0
+	},
+	Weights: map[string]int{"complete": 4, "advance": 3, "storeNew": 2, "renew": 3, "bankDrain": 2, "claim": 2, "vstorage": 1},
+}
+
+func init() { specC06.register() }
+
+func TestC06(t *testing.T) { runRapid(t, "TestC06", specC06.property()) }
+
+// ---- C11 ----
+
+var specC11 = &lifeSpec{
+	Prop: "C11", Test: "TestC11",
+	Oracles:    func() []Oracle { return []Oracle{NewC11()} },
+	Nontrivial: func(s *Sim, os []Oracle) bool { return os[0].(*C11Oracle).Reached > 0 },
+	Weights:    map[string]int{"complete": 5, "advance": 4, "storeNew": 2, "storeUpdate": 2, "renew": 3, "migrate": 2, "cancel": 1, "terminate": 1, "claim": 0},
+	Drain:      true,
+	MaxSteps:   30,
+}
+
+func init() { specC11.register() }
+
+func TestC11(t *testing.T) { runRapid(t, "TestC11", specC11.property()) }
+
+// ---- C05 ----
+
+var specC05 = &lifeSpec{
+	Prop: "C05", Test: "TestC05",
+	Oracles: func() []Oracle { return []Oracle{NewC05()} },
+	Tune: func(cfg *LifeCfg, s *Sim) {
+		s.TraceSteps = true
+		cfg.TimeoutHi = 12
+	},
+	Nontrivial: func(s *Sim, os []Oracle) bool {
+		return os[0].(*C05Oracle).Ended > 0 && (s.Labels["c05-after-reassign"]+s.Labels["c05-update"] > 0 || s.Labels["c05-ended-timeout"] > 0)
+	},
+	Weights:  map[string]int{"complete": 1, "advance": 5, "storeNew": 3, "storeUpdate": 3, "cancel": 3, "resetNode": 2, "renew": 0, "migrate": 0, "claim": 0, "terminate": 1},
+	MaxSteps: 40,
+}
+
+func init() { specC05.register() }
+
+func TestC05(t *testing.T) { runRapid(t, "TestC05", specC05.property()) }
